@@ -257,6 +257,13 @@ class M(Model):
         out = {"state": st, "last": bool(eaten2.all()) or int(s.step_count) + 1 >= self.T}
         if self.pen == 0 or not attempts.any():
             out["reward"] = self._rewards(s, new, contrib)
+        elif self.pen > 0 and not new.any():
+            # the least a "penalty value" can mean (source comment: "penalize agents for not being able to cooperate
+            # and eat food"): a step whose only load attempts fall short of the food's level, under a positive
+            # penalty, pays somebody a negative reward - whatever the normalisation
+            pen = self.pen
+            out["reward_check"] = lambda r: None if (np.asarray(r, np.float64) < 0).any() else \
+                f"under-levelled load attempt with penalty={pen}, nothing eaten, yet no agent is penalised: reward {np.asarray(r).tolist()}"
         return out
 
 
